@@ -491,8 +491,8 @@ def ev_gphist(case):
         if seen[key] == 1:
             fails.append(fail(key, what, kernel=name, mean=mean_name, noise=noise, n=n, d=d, pattern=pattern, **kw))
 
-    def make(theta, own):
-        """own=True: the caller's own arrays are handed over (and watched); else copies"""
+    def make(theta):
+        """a regressor on new copies of the data; returns it with the arrays that were handed over (the caller's, to be watched)"""
         kw = {}
         arrs = {"x": X0.copy(), "y": y0.copy(), "theta": theta}
         if noise == "y_err":
@@ -522,7 +522,7 @@ def ev_gphist(case):
     # what a freshly built regressor returns for each hyper-parameter vector (computed once per case)
     fresh = []
     for k in range(3):
-        g, _ = make(thetas[k].copy(), False)
+        g, _ = make(thetas[k].copy())
         fresh.append({w: predict(g, w, Q0.copy()) for w in "CPM"})
     part = {"C": ("mean", "sd"), "P": ("mean", "covariance"), "M": ("mean",)}
     meth = {"C": "__call__", "P": "build_posterior", "M": "mean_only"}
@@ -530,7 +530,7 @@ def ev_gphist(case):
     def run(hist):
         T = thetas[0].copy()
         try:
-            g, arrs = make(T, True)
+            g, arrs = make(T)
         except LibFailure as e:
             bad(f"history/{fam}/constructor/raises:{e.exc_type}", f"{name}: {e}", traceback=e.tb, history=[])
             return False
